@@ -147,6 +147,58 @@ func c17Listing(c *Ctx, reg *guardedGlobal) {
 		return
 	}
 	name := FuncName(fn)
+	isRegMap := func(v ssa.Value) bool {
+		f, base := loadedField(v)
+		return f != nil && base == ssa.Value(reg.G)
+	}
+	// the listing may hand the registry's map to a helper that builds, sorts and returns the list: judge the helper
+	if rs := returnsOf(fn); len(rs) > 0 {
+		var h *ssa.Function
+		hk := -1
+		for _, ret := range rs {
+			if len(ret.Results) != 1 {
+				h = nil
+				break
+			}
+			call, isCall := unwrap(results(ret)[0], true).(*ssa.Call)
+			if !isCall {
+				h = nil
+				break
+			}
+			f := call.Call.StaticCallee()
+			k := -1
+			for i, a := range call.Call.Args {
+				if isRegMap(a) {
+					k = i
+				}
+			}
+			if f == nil || f.Blocks == nil || !strings.HasPrefix(funcPkgPath(f), modPath) || k < 0 || (h != nil && (h != f || hk != k)) || len(call.Call.Args) != len(f.Params) {
+				h = nil
+				break
+			}
+			h, hk = f, k
+		}
+		if h != nil {
+			par := h.Params[hk]
+			// the helper only ranges over (or measures) the map it is given
+			clean := true
+			for _, rr := range referrersOf(par) {
+				switch y := rr.(type) {
+				case *ssa.Range, *ssa.DebugRef:
+				case *ssa.Call:
+					if b, isB := y.Call.Value.(*ssa.Builtin); !isB || b.Name() != "len" {
+						clean = false
+					}
+				default:
+					clean = false
+				}
+			}
+			if clean {
+				fn = h
+				isRegMap = func(v ssa.Value) bool { return v == ssa.Value(par) }
+			}
+		}
+	}
 	rets := returnsOf(fn)
 	var sortCalls []ssa.Instruction
 	eachInstr(fn, func(in ssa.Instruction) {
@@ -233,7 +285,7 @@ func c17Listing(c *Ctx, reg *guardedGlobal) {
 				fromKeys = false
 				return
 			}
-			if f, base := loadedField(rg.X); f == nil || base != ssa.Value(reg.G) {
+			if !isRegMap(rg.X) {
 				fromKeys = false
 			}
 		})
